@@ -34,11 +34,12 @@ class Target:
         if c is not None and c.eval_failures:
             left = c.eval_failures.get(self.tag)
             if left is not None:
+                left, exc_type = left if isinstance(left, tuple) else (left, _ctx.InjectedFailure)
                 if left <= 1:
                     c.eval_failures[self.tag] = None
                     c.stats["fault_posterior_raised_mid_operation"] += 1
-                    raise _ctx.InjectedFailure("the posterior raised at %r" % (th.tolist(),))
-                c.eval_failures[self.tag] = left - 1
+                    raise exc_type("the posterior raised at %r" % (th.tolist(),))
+                c.eval_failures[self.tag] = (left - 1, exc_type)
         # like any real log-density, a non-finite argument gives a non-finite (NaN) value
         v = self.logpdf(th) if np.all(np.isfinite(th)) else float("nan")
         self._note("post", th, v)
@@ -219,6 +220,23 @@ class Laplace(Target):
 
     def spec(self):
         return {"kind": self.kind, "d": self.d, "b": self.b.tolist()}
+
+
+class Cauchy(Target):
+    """Spherical multivariate Cauchy, (1 + |x|^2)^(-(d+1)/2): stretching a walker by z changes the log-density by
+    about -(d+1) log z, so that in many dimensions the two factors z^(d-1) and p(Y)/p(X) of the stretch-move ratio
+    are huge and tiny (beyond the range of exp) while their product is moderate."""
+
+    kind = "cauchy"
+
+    def logpdf(self, th):
+        return -0.5 * (self.d + 1.0) * float(np.log1p(float(th @ th)))
+
+    def grad(self, th):
+        return -(self.d + 1.0) * th / (1.0 + float(th @ th))
+
+    def draw(self, rng, T=1.0):
+        return rng.standard_normal(self.d) / abs(float(rng.standard_normal()))
 
 
 class GammaPos(Target):
@@ -465,6 +483,8 @@ def make_target(spec, tag="t0"):
         return CorrGauss(d, spec.get("rho", 0.8), tag=tag)
     if k == "laplace":
         return Laplace(d, spec.get("b"), tag=tag)
+    if k == "cauchy":
+        return Cauchy(d, tag=tag)
     if k == "gamma":
         return GammaPos(d, spec.get("k", 3.0), tag=tag)
     if k == "truncgauss":
